@@ -5,6 +5,7 @@ CONSTANTS
   SymTab <- MCSymTab
   AliasOf <- MCAliasOf
   NotEntry = "all"
+  AnyEntry = "lists"
   SymEntry = "index"
   UseMode = "alias"
   CalleeMode = "func"
